@@ -765,4 +765,51 @@ example : (step Alloc.stack demo0 (.consume 1)).2 = .fault .panic := by decide
 example : (step Alloc.stack demo0 (.consume (USIZE - 1))).2 = .fault .panic := by decide
 example : (step Alloc.stack demo0 (.sendBytes [])).2 = .fault .panic := by decide
 
+/-! ### characters written through `fmt::Write` (`write_char`, `write!("{}", c)`)
+
+The provided `write_char` hands `c.encode_utf8(..)` to `write_str`, i.e. to `send_bytes`; with
+`sendBytes_exact` the device therefore sees exactly the UTF-8 encoding.  The encoder of the model is
+the standard one: it is inverted by the standard decoder, produces 1–4 bytes, and only bytes ≥ 0x80
+for anything outside ASCII (a truncation `c as u8` is a different byte string for every such `c`). -/
+
+/-- standard UTF-8 decoding of one well-formed sequence -/
+def utf8Decode : List Nat → Option Nat
+  | [a] => if a < 0x80 then some a else none
+  | [a, b] => some ((a - 0xC0) * 64 + (b - 0x80))
+  | [a, b, c] => some ((a - 0xE0) * 4096 + (b - 0x80) * 64 + (c - 0x80))
+  | [a, b, c, d] => some ((a - 0xF0) * 262144 + (b - 0x80) * 4096 + (c - 0x80) * 64 + (d - 0x80))
+  | _ => none
+
+theorem utf8_roundtrip (c : Nat) (h : c < 0x110000) : utf8Decode (utf8 c) = some c := by
+  unfold utf8
+  split
+  · simp [utf8Decode, *]
+  · split
+    · simp only [utf8Decode, Option.some.injEq]; omega
+    · split
+      · simp only [utf8Decode, Option.some.injEq]; omega
+      · simp only [utf8Decode, Option.some.injEq]; omega
+
+theorem utf8_bytes (c : Nat) (h : c < 0x110000) :
+    1 ≤ (utf8 c).length ∧ (utf8 c).length ≤ 4 ∧ (∀ b ∈ utf8 c, b < 256) ∧ (0x80 ≤ c → ∀ b ∈ utf8 c, 0x80 ≤ b) := by
+  unfold utf8
+  split
+  · simp; omega
+  · split
+    · simp; omega
+    · split
+      · simp; omega
+      · simp; omega
+
+/-- a non-ASCII character never goes out as a single byte -/
+theorem utf8_nonascii_multibyte (c : Nat) (h : 0x80 ≤ c) : 2 ≤ (utf8 c).length := by
+  unfold utf8
+  split
+  · omega
+  · split
+    · simp
+    · split <;> simp
+
+example : utf8 0xe9 = [0xC3, 0xA9] ∧ utf8 0x20ac = [0xE2, 0x82, 0xAC] ∧ utf8 0x1f600 = [0xF0, 0x9F, 0x98, 0x80] := by decide
+
 end VirtioVerif.Props.C15
